@@ -27,14 +27,14 @@ Definition task_inv (s : state) (t : name) : Prop :=
   match s_db s t, s_last_ok s t with
   | None, None => True
   | None, Some _ => False
-  | Some r, Some g => rec_truthful md5 (s_fs s) (s_clock s) r /\ rec_typed r /\ rec_reflects g r
+  | Some r, Some g => rec_truthful md5 (s_seen s) r /\ rec_typed r /\ rec_reflects g r
   | Some r, None => rec_unsaved r
   end.
 
 Definition db_reflects_ghost (s : state) : Prop :=
-  fs_below (s_fs s) (s_clock s) /\ (forall t, task_inv s t) /\ s_crashed s = false.
+  fs_seen (s_fs s) (s_seen s) /\ (forall t, task_inv s t) /\ s_crashed s = false.
 
-Lemma unsaved_truthful fs clk r : rec_unsaved r -> rec_truthful md5 fs clk r.
+Lemma unsaved_truthful sn r : rec_unsaved r -> rec_truthful md5 sn r.
 Proof. intros (_ & _ & H) f m sz dg E. rewrite H in E. discriminate. Qed.
 Lemma unsaved_typed r : rec_unsaved r -> rec_typed r.
 Proof. intros (_ & H1 & H) . unfold rec_typed. rewrite H1. exact H. Qed.
@@ -43,7 +43,7 @@ Proof. repeat split. Qed.
 
 (* every record the invariant allows is truthful and well-typed; so is the one a missing key stands for *)
 Lemma task_inv_getrec s t :
-  task_inv s t -> rec_truthful md5 (s_fs s) (s_clock s) (getrec (s_db s) t) /\ rec_typed (getrec (s_db s) t).
+  task_inv s t -> rec_truthful md5 (s_seen s) (getrec (s_db s) t) /\ rec_typed (getrec (s_db s) t).
 Proof.
   unfold task_inv, getrec. destruct (s_db s t) as [r|]; destruct (s_last_ok s t) as [g|]; intros H.
   - tauto.
@@ -53,25 +53,49 @@ Proof.
 Qed.
 
 Lemma task_inv_ext s s' t :
-  s_fs s' = s_fs s -> s_clock s' = s_clock s -> s_db s' t = s_db s t -> s_last_ok s' t = s_last_ok s t ->
+  s_seen s' = s_seen s -> s_db s' t = s_db s t -> s_last_ok s' t = s_last_ok s t ->
   task_inv s t -> task_inv s' t.
-Proof. unfold task_inv. intros -> -> -> ->. auto. Qed.
+Proof. unfold task_inv. intros -> -> ->. auto. Qed.
 
 (* ---------- file-system operations ---------- *)
-Lemma inv_fs s fs' clk' :
-  s_clock s <= clk' -> fs_below fs' clk' ->
-  (forall f, fs' f = s_fs s f \/ fs' f = None \/ exists st, fs' f = Some st /\ s_clock s <= mtime st) ->
-  db_reflects_ghost s -> db_reflects_ghost (with_fs s fs' clk').
+Lemma consistent_extends sn f m :
+  consistent sn f m = true -> forall f' t' x, sn f' t' = Some x -> see sn f m f' t' = Some x.
 Proof.
-  intros Hc Hb Hf (_ & Ht & Hcr). split; [exact Hb|]. split; [|exact Hcr].
-  intros t. specialize (Ht t). unfold task_inv in *. simpl.
-  destruct (s_db s t) as [r|]; destruct (s_last_ok s t) as [g|]; auto.
-  destruct Ht as (H1 & H2 & H3). split; [|split; auto].
-  intros f m sz dg E. destruct (H1 f m sz dg E) as [Hm Hx]. split; [lia|].
-  intros st Hst Hmt. destruct (Hf f) as [H|[H|[st' [H H']]]].
-  - rewrite H in Hst. auto.
-  - congruence.
-  - rewrite H in Hst. inversion Hst; subst. lia.
+  unfold consistent, see. intros H f' t' x Hx.
+  destruct (N.eqb_spec f' f) as [->|]; simpl; auto.
+  destruct (Z.eqb_spec t' (mtime m)) as [->|]; auto.
+  rewrite Hx in H. destruct x as [sz c]. apply andb_true_iff in H. destruct H as [H1 H2].
+  apply Z.eqb_eq in H1. apply N.eqb_eq in H2. subst. reflexivity.
+Qed.
+
+(* a file becomes a version that agrees with everything seen so far: any mtime, older or newer *)
+Lemma inv_put s f m clk :
+  consistent (s_seen s) f m = true -> db_reflects_ghost s -> db_reflects_ghost (put s f m clk).
+Proof.
+  intros Hc (Hb & Ht & Hcr). pose proof (consistent_extends _ _ _ Hc) as Hext.
+  split; [|split; [|exact Hcr]].
+  - intros f' st E. simpl in *. unfold upd in E. destruct (N.eqb_spec f' f) as [->|Hne].
+    + inversion E; subst. unfold see. rewrite N.eqb_refl, Z.eqb_refl. reflexivity.
+    + apply Hext. apply Hb. exact E.
+  - intros t. specialize (Ht t). unfold task_inv in *. simpl.
+    destruct (s_db s t) as [r|]; destruct (s_last_ok s t) as [g|]; auto.
+    destruct Ht as (H1 & H2 & H3). split; [|split; auto].
+    intros f' m' sz dg E. destruct (H1 f' m' sz dg E) as (c & Hs & Hd). exists c. split; auto.
+Qed.
+
+Lemma inv_del s f clk : db_reflects_ghost s -> db_reflects_ghost (with_fs s (upd (s_fs s) f None) clk).
+Proof.
+  intros (Hb & Ht & Hcr). split; [|split; [exact Ht | exact Hcr]].
+  intros f' st E. simpl in E. unfold upd in E. destruct (N.eqb f' f); [discriminate|]. apply Hb; auto.
+Qed.
+
+Lemma inv_tick s clk : db_reflects_ghost s -> db_reflects_ghost (with_fs s (s_fs s) clk).
+Proof. intros H. exact H. Qed.
+
+Lemma step_write_inv s o : op_ok size_of s o = true -> db_reflects_ghost s -> db_reflects_ghost (step_write size_of s o).
+Proof.
+  unfold op_ok, step_write. intros Hok Hinv.
+  destruct (new_version size_of s o) as [[f m]|]; [apply inv_put; auto | apply inv_tick; auto].
 Qed.
 
 (* ---------- DB operations on one task ---------- *)
@@ -125,7 +149,7 @@ Qed.
 
 Lemma inv_save s d0 t vals res d' o :
   db_reflects_ghost s ->
-  rec_truthful md5 (s_fs s) (s_clock s) (getrec d0 t) -> rec_typed (getrec d0 t) ->
+  rec_truthful md5 (s_seen s) (getrec d0 t) -> rec_typed (getrec d0 t) ->
   (forall t', t' <> t -> d0 t' = s_db s t') ->
   save_success md5 v (s_ck s) (s_fs s) d0 t (file_dep (s_defs s t)) vals res = (d', o) ->
   match o with
@@ -157,32 +181,16 @@ Proof.
   rewrite forallb_forall. intros H Hin E. specialize (H f Hin). unfold exists_ in H. rewrite E in H. discriminate.
 Qed.
 
-(* ---------- every FS-fresh operation preserves the invariant ---------- *)
-Lemma step_inv s o : fresh_op o = true -> db_reflects_ghost s -> db_reflects_ghost (step s o).
+(* ---------- every operation that respects FS-fresh preserves the invariant ---------- *)
+Lemma step_inv s o : op_ok size_of s o = true -> db_reflects_ghost s -> db_reflects_ghost (step s o).
 Proof.
-  intros Hf Hinv. pose proof Hinv as (Hb & Ht & Hcr). destruct o; simpl in Hf |- *.
-  - (* Write *)
-    apply inv_fs; auto; try lia.
-    + intros f' st E. unfold upd in E. destruct (N.eqb f' f).
-      * inversion E; simpl; lia.
-      * apply Hb in E. lia.
-    + intros f'. unfold upd. destruct (N.eqb f' f); auto.
-      right; right. eexists. split; [reflexivity | simpl; lia].
-  - (* Touch *)
-    destruct (s_fs s f) as [m|] eqn:E.
-    + apply inv_fs; auto; try lia.
-      * intros f' st E'. unfold upd in E'. destruct (N.eqb f' f).
-        -- inversion E'; simpl; lia.
-        -- apply Hb in E'. lia.
-      * intros f'. unfold upd. destruct (N.eqb f' f); auto.
-        right; right. eexists. split; [reflexivity | simpl; lia].
-    + apply inv_fs; auto; try lia.
-      intros f' st E'. apply Hb in E'. lia.
-  - (* Delete *)
-    apply inv_fs; auto; try lia.
-    + intros f' st E. unfold upd in E. destruct (N.eqb f' f); [discriminate|]. apply Hb in E. lia.
-    + intros f'. unfold upd. destruct (N.eqb f' f); auto.
-  - discriminate.
+  intros Hf Hinv. pose proof Hinv as (Hb & Ht & Hcr). destruct o; simpl.
+  - apply step_write_inv; auto.
+  - apply step_write_inv; auto.
+  - apply inv_del; auto.
+  - apply step_write_inv; auto.
+  - apply step_write_inv; auto.
+  - apply step_write_inv; auto.
   - (* SetDef *) exact Hinv.
   - (* SetChecker *) exact Hinv.
   - (* SaveOk *)
@@ -250,7 +258,7 @@ Proof.
   - (* CheckLog *) apply (inv_get_status s t true Hinv).
 Qed.
 
-Lemma run_from_inv ops : forall s, fs_fresh ops = true -> db_reflects_ghost s -> db_reflects_ghost (run_from s ops).
+Lemma run_from_inv ops : forall s, hist_ok_from md5 size_of v s ops = true -> db_reflects_ghost s -> db_reflects_ghost (run_from s ops).
 Proof.
   induction ops as [|o ops IH]; intros s Hf Hinv; simpl in *; auto.
   apply andb_true_iff in Hf. destruct Hf as [H1 H2]. apply IH; auto. apply step_inv; auto.
@@ -262,8 +270,44 @@ Proof. split; [intros f st E; discriminate|]. split; [intros t; exact I | reflex
 Lemma run_snoc ops o : run (ops ++ [o]) = step (run ops) o.
 Proof. unfold History.run, History.run_from. rewrite fold_left_app. reflexivity. Qed.
 
-Lemma run_inv ops : fs_fresh ops = true -> db_reflects_ghost (run ops).
+Lemma run_inv ops : hist_ok md5 size_of v ops = true -> db_reflects_ghost (run ops).
 Proof. intros H. apply run_from_inv; auto. apply init_inv. Qed.
+
+(* the special case of forward-clock writes only: FS-fresh holds by construction *)
+Definition seen_below (s : state) : Prop := forall f m x, s_seen s f m = Some x -> m < s_clock s.
+Lemma seen_below_see s f m clk :
+  seen_below s -> mtime m < clk -> s_clock s <= clk -> seen_below (put s f m clk).
+Proof.
+  intros Hs Hm Hc f' t' x Hx. simpl in *. unfold see in Hx.
+  destruct (N.eqb f' f && (t' =? mtime m)) eqn:E.
+  - apply andb_true_iff in E. destruct E as [_ E]. apply Z.eqb_eq in E. lia.
+  - apply Hs in Hx. lia.
+Qed.
+Lemma seen_below_step s o : fresh_op o = true -> seen_below s -> seen_below (step s o).
+Proof.
+  intros Hf Hs. destruct o; simpl in Hf; try discriminate; simpl; try exact Hs.
+  - (* Write *) unfold step_write. simpl. apply seen_below_see; simpl; auto; lia.
+  - (* Touch *) unfold step_write. simpl. destruct (s_fs s f).
+    + apply seen_below_see; simpl; auto; lia.
+    + intros f' t' x Hx. simpl in *. apply Hs in Hx. lia.
+  - (* SaveOk *) destruct (process_success md5 v (s_ck s) (s_fs s) (s_db s) t (s_defs s t)). exact Hs.
+  - (* ResetDep *) destruct (reset_dep md5 v (s_ck s) (s_fs s) (s_db s) t (s_defs s t)). exact Hs.
+Qed.
+Lemma fresh_hist_ok_from ops : forall s, seen_below s -> fs_fresh ops = true -> hist_ok_from md5 size_of v s ops = true.
+Proof.
+  induction ops as [|o ops IH]; intros s Hs Hf; simpl in *; auto.
+  apply andb_true_iff in Hf. destruct Hf as [H1 H2].
+  apply andb_true_iff. split; [|apply IH; auto; apply seen_below_step; auto].
+  assert (Hfresh : forall f m, new_version size_of s o = Some (f, m) -> mtime m = s_clock s).
+  { intros f m E. destruct o; simpl in *; try discriminate.
+    - inversion E; subst. auto.
+    - destruct (s_fs s f0); inversion E; subst. auto. }
+  unfold op_ok. destruct (new_version size_of s o) as [[f m]|] eqn:E; auto.
+  pose proof (Hfresh f m eq_refl) as Hm. unfold consistent. rewrite Hm.
+  destruct (s_seen s f (s_clock s)) as [x|] eqn:Ex; auto. apply Hs in Ex. lia.
+Qed.
+Lemma fresh_hist_ok ops : fs_fresh ops = true -> hist_ok md5 size_of v ops = true.
+Proof. apply fresh_hist_ok_from. intros f m x E. discriminate. Qed.
 
 (* ---------- no TypeError in ANY history: typing of the records does not depend on FS-fresh ---------- *)
 Definition typed_inv (s : state) : Prop := (forall t, rec_typed (getrec (s_db s) t)) /\ s_crashed s = false.
@@ -301,9 +345,10 @@ Qed.
 
 Lemma step_typed s o : typed_inv s -> typed_inv (step s o).
 Proof.
-  intros Hinv. pose proof Hinv as [Ht Hcr]. destruct o; simpl; try exact Hinv.
-  - (* Touch *) destruct (s_fs s f); exact Hinv.
-  - (* WriteSameMtime *) destruct (s_fs s f); exact Hinv.
+  intros Hinv. pose proof Hinv as [Ht Hcr].
+  assert (Hw : forall o', typed_inv (step_write size_of s o')).
+  { intros o'. unfold step_write. destruct (new_version size_of s o') as [[f m]|]; exact Hinv. }
+  destruct o; simpl; try exact Hinv; try apply Hw.
   - (* SaveOk *)
     unfold process_success.
     destruct (save_success md5 v (s_ck s) (s_fs s) (s_db s) t (file_dep (s_defs s t))
@@ -499,12 +544,12 @@ Proof.
 Qed.
 
 (* ---------- md5: a fresh mtime on the same content changes no verdict ---------- *)
-Lemma refresh_same_verdict s f now now' t :
+Lemma refresh_same_verdict s f now now' clk t :
   db_reflects_ghost s -> s_ck s = MD5 -> s_fs s f = Some now ->
-  mtime now' = s_clock s -> size now' = size now -> content now' = content now ->
-  check (with_fs s (upd (s_fs s) f (Some now')) (s_clock s + 1)) t = check s t.
+  consistent (s_seen s) f now' = true -> size now' = size now -> content now' = content now ->
+  check (put s f now' clk) t = check s t.
 Proof.
-  intros (Hb & Ht & Hcr) Hck Hnow Hm Hs Hc. unfold check. simpl.
+  intros (Hb & Ht & Hcr) Hck Hnow Hcons Hs Hc. unfold check. simpl.
   apply get_status_fs_ext.
   - intros x _. unfold exists_, upd. destruct (N.eqb_spec x f) as [->|]; auto. rewrite Hnow. reflexivity.
   - intros f' _. unfold file_verdict, upd. destruct (N.eqb_spec f' f) as [->|]; auto. rewrite Hnow.
@@ -521,36 +566,89 @@ Proof.
       - apply negb_false_iff, ck_eqb_eq in Hcc. subst p. rewrite <- Hck. apply (G2 f); auto.
       - rewrite G2 in Ee. discriminate. }
     rewrite Hck. destruct e as [m sz dg|m]; [|discriminate]. simpl.
-    destruct (G1 f m sz dg Ee) as [Hlt Hx].
-    rewrite Hm, Hs, Hc.
-    destruct (Z.eqb_spec (s_clock s) m) as [E|_]; [lia|].
-    destruct (Z.eqb_spec (mtime now) m) as [E|_]; auto.
-    destruct (Hx now Hnow E) as [-> ->]. rewrite Z.eqb_refl, N.eqb_refl. reflexivity.
+    destruct (G1 f m sz dg Ee) as (c & Hseen & Hdg).
+    rewrite Hs, Hc.
+    (* the entry's version of f, the current one and the new one: equal mtimes mean equal (size, content) *)
+    assert (Hnow_m : mtime now = m -> size now = sz /\ md5 (content now) = dg).
+    { intros E. apply (truthful_now md5 (s_fs s) (s_seen s) (getrec (s_db s) t) f m sz dg now); auto. }
+    assert (Hnew_m : mtime now' = m -> size now = sz /\ md5 (content now) = dg).
+    { intros E. unfold consistent in Hcons. rewrite E, Hseen in Hcons.
+      apply andb_true_iff in Hcons. destruct Hcons as [H1 H2]. apply Z.eqb_eq in H1. apply N.eqb_eq in H2.
+      subst c. rewrite <- Hc, <- Hs. split; [symmetry; exact H1 | exact Hdg]. }
+    destruct (Z.eqb_spec (mtime now') m) as [E1|E1]; destruct (Z.eqb_spec (mtime now) m) as [E2|E2]; auto.
+    + destruct (Hnew_m E1) as [-> ->]. rewrite Z.eqb_refl, N.eqb_refl. reflexivity.
+    + destruct (Hnow_m E2) as [-> ->]. rewrite Z.eqb_refl, N.eqb_refl. reflexivity.
+Qed.
+
+(* an operation that gives f another mtime (any: newer or older) but the size and content it has *)
+Lemma same_content_md5 s o f now now' t :
+  db_reflects_ghost s -> s_ck s = MD5 -> op_ok size_of s o = true ->
+  new_version size_of s o = Some (f, now') -> s_fs s f = Some now -> size now' = size now -> content now' = content now ->
+  check (step_write size_of s o) t = check s t.
+Proof.
+  intros Hinv Hck Hok Hnv Hnow Hs Hc. unfold step_write, op_ok in *. rewrite Hnv in *.
+  apply (refresh_same_verdict s f now); auto.
 Qed.
 
 Lemma touch_md5 s f t :
-  db_reflects_ghost s -> s_ck s = MD5 -> check (step s (Touch f)) t = check s t.
+  db_reflects_ghost s -> s_ck s = MD5 -> op_ok size_of s (Touch f) = true -> check (step s (Touch f)) t = check s t.
 Proof.
-  intros Hinv Hck. simpl. destruct (s_fs s f) as [now|] eqn:E.
-  - apply (refresh_same_verdict s f now); auto.
-  - reflexivity.
+  intros Hinv Hck Hok. simpl. destruct (s_fs s f) as [now|] eqn:E.
+  - apply (same_content_md5 s (Touch f) f now {| mtime := s_clock s; size := size now; content := content now |}); auto.
+    simpl. rewrite E. reflexivity.
+  - unfold step_write. simpl. rewrite E. reflexivity.
 Qed.
 
-Lemma rewrite_md5 s f c now t :
-  db_reflects_ghost s -> s_ck s = MD5 -> s_fs s f = Some now -> content now = c -> size now = size_of c ->
-  check (step s (Write f c)) t = check s t.
+Lemma touch_at_md5 s f m t :
+  db_reflects_ghost s -> s_ck s = MD5 -> op_ok size_of s (TouchAt f m) = true -> check (step s (TouchAt f m)) t = check s t.
 Proof.
-  intros Hinv Hck Hnow Hc Hs. simpl. apply (refresh_same_verdict s f now); auto.
+  intros Hinv Hck Hok. simpl. destruct (s_fs s f) as [now|] eqn:E.
+  - apply (same_content_md5 s (TouchAt f m) f now {| mtime := m; size := size now; content := content now |}); auto.
+    simpl. rewrite E. reflexivity.
+  - unfold step_write. simpl. rewrite E. reflexivity.
 Qed.
 
-Lemma touch_md5_run ops f t :
-  fs_fresh ops = true -> s_ck (run ops) = MD5 -> check (run (ops ++ [Touch f])) t = check (run ops) t.
-Proof. intros Hf Hck. rewrite run_snoc. apply touch_md5; auto. apply run_inv; auto. Qed.
+Lemma rewrite_at_md5 s f c m now t :
+  db_reflects_ghost s -> s_ck s = MD5 -> op_ok size_of s (WriteAt f c m) = true ->
+  s_fs s f = Some now -> content now = c -> size now = size_of c ->
+  check (step s (WriteAt f c m)) t = check s t.
+Proof.
+  intros Hinv Hck Hok Hnow Hc Hs. simpl.
+  apply (same_content_md5 s (WriteAt f c m) f now {| mtime := m; size := size_of c; content := c |}); auto.
+Qed.
 
-Lemma rewrite_md5_run ops f c now t :
-  fs_fresh ops = true -> s_ck (run ops) = MD5 -> s_fs (run ops) f = Some now -> content now = c -> size now = size_of c ->
-  check (run (ops ++ [Write f c])) t = check (run ops) t.
-Proof. intros Hf Hck Hnow Hc Hs. rewrite run_snoc. apply (rewrite_md5 _ f c now); auto. apply run_inv; auto. Qed.
+Lemma hist_ok_snoc ops o :
+  hist_ok md5 size_of v (ops ++ [o]) = true <-> hist_ok md5 size_of v ops = true /\ op_ok size_of (run ops) o = true.
+Proof.
+  unfold hist_ok, History.run. generalize init. induction ops as [|a ops IH]; intros s; simpl.
+  - rewrite andb_true_r. tauto.
+  - rewrite andb_true_iff, IH, andb_true_iff. tauto.
+Qed.
+
+Lemma touch_md5_run ops f m t :
+  hist_ok md5 size_of v (ops ++ [TouchAt f m]) = true -> s_ck (run ops) = MD5 ->
+  check (run (ops ++ [TouchAt f m])) t = check (run ops) t.
+Proof.
+  intros Hf Hck. apply hist_ok_snoc in Hf. destruct Hf as [H1 H2].
+  rewrite run_snoc. apply touch_at_md5; auto. apply run_inv; auto.
+Qed.
+
+Lemma touch_clock_md5_run ops f t :
+  hist_ok md5 size_of v (ops ++ [Touch f]) = true -> s_ck (run ops) = MD5 ->
+  check (run (ops ++ [Touch f])) t = check (run ops) t.
+Proof.
+  intros Hf Hck. apply hist_ok_snoc in Hf. destruct Hf as [H1 H2].
+  rewrite run_snoc. apply touch_md5; auto. apply run_inv; auto.
+Qed.
+
+Lemma rewrite_md5_run ops f c m now t :
+  hist_ok md5 size_of v (ops ++ [WriteAt f c m]) = true -> s_ck (run ops) = MD5 ->
+  s_fs (run ops) f = Some now -> content now = c -> size now = size_of c ->
+  check (run (ops ++ [WriteAt f c m])) t = check (run ops) t.
+Proof.
+  intros Hf Hck Hnow Hc Hs. apply hist_ok_snoc in Hf. destruct Hf as [H1 H2].
+  rewrite run_snoc. apply (rewrite_at_md5 _ f c m now); auto. apply run_inv; auto.
+Qed.
 
 Lemma uptodate_not_executed s t : g_status (check s t) = UpToDate -> executes md5 v s t false = false.
 Proof. intros H. unfold executes. fold (check s t). rewrite H. apply andb_false_r. Qed.
@@ -602,14 +700,14 @@ Proof.
     split; congruence.
 Qed.
 
-Lemma op_on_fresh t ops : Forall (op_on t) ops -> fs_fresh ops = true.
+Lemma op_on_ok t ops : forall s, Forall (op_on t) ops -> hist_ok_from md5 size_of v s ops = true.
 Proof.
-  induction 1 as [|o ops H _ IH]; simpl; auto. rewrite IH.
-  destruct H as [-> | [-> | ->]]; reflexivity.
+  induction ops as [|o ops IH]; intros s H; simpl; auto. inversion H as [|? ? H1 H2]; subst.
+  rewrite IH by auto. destruct H1 as [-> | [-> | ->]]; reflexivity.
 Qed.
 
 Lemma run_task_inv s t : db_reflects_ghost s -> db_reflects_ghost (run_task md5 size_of v s t false false).
-Proof. intros H. apply run_from_inv; auto. apply (op_on_fresh t), run_task_ops_on. Qed.
+Proof. intros H. apply run_from_inv; auto. apply (op_on_ok t), run_task_ops_on. Qed.
 
 Lemma files_as_last_ok_ext s s' t :
   same_env s s' -> s_last_ok s' t = s_last_ok s t -> files_as_last_ok s t -> files_as_last_ok s' t.
